@@ -154,4 +154,71 @@ theorem wrapVal_lt {n : Nat} (hn : n ≠ 0) (d : Int) (h : (wrapDim n d).isSome 
   unfold wrapVal; rw [wrapDim_eq_normDim hn] at h ⊢; unfold normDim at h ⊢; grind
 
 
+
+/-- closed form of `permute` on an explicit non-identity permutation: batch, names and the leaf call -/
+theorem permuteMeta_of_perm_full (q : List Nat) (bs : Shape) (nm : Names) (hq : q.Perm (List.range bs.length))
+    (hid : q ≠ List.range bs.length) :
+    permuteMeta (natsToInts q) bs nm =
+      .ok (some (q.map (fun i => bs.getD i 0), nm.map (fun l => q.map (fun i => l.getD i none)), .permute q)) := by
+  have hlen : q.length = bs.length := by simpa using hq.length_eq
+  have hlt : ∀ x ∈ q, x < bs.length := fun x hx => by simpa using (hq.mem_iff.1 hx)
+  unfold permuteMeta
+  have h1 : (natsToInts q).map (fun d => if d ≥ 0 then d else (bs.length : Int) + d) = natsToInts q := by
+    simp [natsToInts, List.map_map, Function.comp_def]
+  simp only [h1]
+  have h2 : (natsToInts q).any (fun d => d < 0 ∨ d ≥ (bs.length : Int)) = false := by
+    simp only [natsToInts, List.any_eq_false, List.mem_map]
+    rintro d ⟨x, hx, rfl⟩
+    have := hlt x hx
+    simp; omega
+  have h3 : (natsToInts q).length = bs.length := by simp [natsToInts, hlen]
+  have h4 : (natsToInts q).map Int.toNat = q := by simp [natsToInts, List.map_map, Function.comp_def]
+  have h5 : q.mergeSort = List.range q.length := by rw [hlen]; exact mergeSort_of_perm_range q _ hq
+  have hne : ¬ (q.length = 0 ∧ bs.length = 0) := by
+    intro h
+    apply hid
+    have : q = [] := List.length_eq_zero_iff.1 h.1
+    rw [this, h.2]; rfl
+  have hid' : ¬ (q = List.range q.length) := by rw [hlen]; exact hid
+  simp only [h2, h3, h4, h5, Bool.false_eq_true, if_false, ne_eq, not_true_eq_false, hne, hid']
+  rw [hlen, List.drop_length, List.append_nil]
+
+
+/-! ### split sizes -/
+
+theorem lt_ceil_iff (max k j : Nat) (hk : 0 < k) : j < (max + k - 1) / k ↔ j * k < max := by
+  rw [show j < (max + k - 1) / k ↔ j + 1 ≤ (max + k - 1) / k from Iff.rfl, Nat.le_div_iff_mul_le hk]
+  rw [Nat.add_mul]; omega
+
+theorem splitLoop_sizes (k max : Nat) (hk : 0 < k) : ∀ (fuel j : Nat), max - min max (j * k) ≤ fuel →
+    (splitLoop k max fuel (min max (j * k))).map Prod.snd =
+      (List.range' j ((max + k - 1) / k - j)).map (fun i => min k (max - i * k))
+  | 0, j, h => by
+    have hge : ¬ (j * k < max) := by omega
+    have : (max + k - 1) / k - j = 0 := by
+      have h1 : ¬ (j < (max + k - 1) / k) := fun hh => hge ((lt_ceil_iff max k j hk).1 hh)
+      omega
+    simp [splitLoop, this]
+  | fuel + 1, j, h => by
+    unfold splitLoop
+    by_cases hlt : j * k < max
+    · have hidx : min max (j * k) = j * k := by omega
+      have hc : j < (max + k - 1) / k := (lt_ceil_iff max k j hk).2 hlt
+      have hnext : min max (j * k + k) = min max ((j + 1) * k) := by rw [Nat.add_mul]; simp
+      rw [hidx]
+      simp only [hlt, if_true, List.map_cons]
+      rw [hnext, splitLoop_sizes k max hk fuel (j + 1) (by rw [Nat.add_mul] at *; omega)]
+      have hr : (max + k - 1) / k - j = ((max + k - 1) / k - (j + 1)) + 1 := by omega
+      rw [hr, List.range'_succ, List.map_cons]
+      congr 1
+      rw [Nat.add_mul]; omega
+    · have hidx : min max (j * k) = max := by omega
+      have : (max + k - 1) / k - j = 0 := by
+        have h1 : ¬ (j < (max + k - 1) / k) := fun hh => hlt ((lt_ceil_iff max k j hk).1 hh)
+        omega
+      rw [hidx]
+      simp [this]
+
+
+
 end TdVerif.C02
